@@ -72,6 +72,61 @@ func (e c17Ev) String() string { return vk.JSON(e) }
 type c17Cfg struct {
 	MaxFaults int
 	Grace     time.Duration
+	V6        bool // IPv6 RouteTable: default-priority routes are normalised to metric 1024
+}
+
+// Addresses are written down once, in IPv4; an IPv6 run translates them.
+var c17V6 = map[string]string{
+	"10.0.0.1/32": "fd00::1/128", "10.0.0.2/32": "fd00::2/128", "10.0.1.0/24": "fd00:1::/64", "10.0.0.9/32": "fd00::9/128",
+	"10.0.1.1": "fd00:1::1", "10.0.1.7": "fd00:1::7",
+	"10.9.8.0/24": "fd09:8::/64", "10.9.9.0/24": "fd09:9::/64", "10.8.0.0/16": "fd08::/32",
+	"192.168.0.0/24": "fd92::/64", "0.0.0.0/0": "::/0", "172.16.0.0/16": "fd72::/32",
+	"192.168.0.1": "fd92::1", "192.168.0.8": "fd92::8", "192.168.0.9": "fd92::9", "192.168.0.66": "fd92::66",
+}
+
+func (s *c17State) a(v4 string) string {
+	if !s.cfg.V6 {
+		return v4
+	}
+	v6, ok := c17V6[v4]
+	if !ok {
+		panic("no IPv6 translation for " + v4)
+	}
+	return v6
+}
+func (s *c17State) net(v4 string) *net.IPNet { return c17Net(s.a(v4)) }
+func (s *c17State) gwip(v4 string) net.IP    { return net.ParseIP(s.a(v4)) }
+
+// desired-route entries are "cidr" or "cidr@metric"
+func (s *c17State) X() string { return s.a(c17X) }
+func (s *c17State) Y() string { return s.a(c17Y) }
+func (s *c17State) Z() string {
+	if s.cfg.V6 {
+		return s.a(c17Z) + "@100" // one route with an explicit metric
+	}
+	return s.a(c17Z)
+}
+
+func c17Split(entry string) (string, int) {
+	if i := strings.Index(entry, "@"); i >= 0 {
+		var p int
+		_, _ = fmt.Sscanf(entry[i+1:], "%d", &p)
+		return entry[:i], p
+	}
+	return entry, 0
+}
+
+// normKey: the kernel's key for a desired-route entry ("cidr" for metric 0, else "cidr@metric");
+// IPv6 turns metric 0 into 1024.
+func (s *c17State) normKey(entry string) string {
+	cidr, p := c17Split(entry)
+	if s.cfg.V6 && p == 0 {
+		p = 1024
+	}
+	if p == 0 {
+		return cidr
+	}
+	return fmt.Sprintf("%s@%d", cidr, p)
 }
 
 const (
@@ -249,7 +304,7 @@ func (n *c17NL) RouteListFilteredIter(family int, filter *netlink.Route, mask ui
 			delete(s.foreign, ef.Arg)
 			delete(s.contested, ef.Arg)
 		case "eintr-add":
-			s.addForeign(netlink.Route{Dst: c17Net("10.9.8.0/24"), LinkIndex: 2, Gw: net.ParseIP("192.168.0.8"), Protocol: 80, Type: unix.RTN_UNICAST})
+			s.addForeign(netlink.Route{Dst: s.net("10.9.8.0/24"), LinkIndex: 2, Gw: s.gwip("192.168.0.8"), Protocol: 80, Type: unix.RTN_UNICAST})
 		}
 		return unix.EINTR
 	}
@@ -312,19 +367,24 @@ func c17New(cfg c17Cfg) *c17State {
 func (s *c17State) newRT() {
 	s.dp.NetlinkOpen = false
 	s.connectFails = 0
-	s.rt = New(s.pol, 4, 10*time.Second, nil, unix.RTPROT_BOOT, true, 0, logrusr.NewSummarizer("c17"), s.dp,
+	ver := uint8(4)
+	if s.cfg.V6 {
+		ver = 6
+	}
+	s.rt = New(s.pol, ver, 10*time.Second, nil, unix.RTPROT_BOOT, true, 0, logrusr.NewSummarizer("c17"), s.dp,
 		WithTimeShim(s.tm), WithConntrackCleanup(false), WithRouteCleanupGracePeriod(s.cfg.Grace),
 		WithNetlinkHandleShim(s.newHandle))
 }
 
 // ---- reference model ----------------------------------------------------------------------------------------
 
-func (s *c17State) target(class, cidr string) Target {
-	t := Target{RouteKey: RouteKey{CIDR: ip.MustParseCIDROrIP(cidr)}}
+func (s *c17State) target(class, entry string) Target {
+	cidr, prio := c17Split(entry)
+	t := Target{RouteKey: RouteKey{CIDR: ip.MustParseCIDROrIP(cidr), Priority: prio}}
 	switch class {
 	case "V":
 		t.Type = TargetTypeVXLAN
-		t.GW = ip.FromString("10.0.1.1")
+		t.GW = ip.FromString(s.a("10.0.1.1"))
 		t.Protocol = 80
 	case "B":
 		t.Type = TargetTypeBlackhole
@@ -355,14 +415,17 @@ func (s *c17State) resolved() map[string][]string {
 		class := c17Classes[cname]
 		for ifc, cidrs := range byIf {
 			idx := 0
+			if s.cfg.V6 {
+				idx = 1 // IPv6 "no interface" routes sit on lo
+			}
 			if ifc != InterfaceNone {
 				if !s.operUp(ifc) {
 					continue
 				}
 				idx = s.link(ifc).LinkAttrs.Index
 			}
-			for cidr := range cidrs {
-				cands[cidr] = append(cands[cidr], cand{class, idx, cname})
+			for entry := range cidrs {
+				cands[s.normKey(entry)] = append(cands[s.normKey(entry)], cand{class, idx, cname})
 			}
 		}
 	}
@@ -486,8 +549,9 @@ func (s *c17State) checkForeign(where string) {
 		}
 		// a foreign route sitting exactly on a key that Felix wants is legitimately replaced
 		legit := false
-		for cidr := range res {
-			if k == "254-"+cidr+"-0" {
+		for key := range res {
+			cidr, prio := c17Split(key)
+			if k == fmt.Sprintf("254-%s-%d", cidr, prio) {
 				legit = true
 			}
 		}
@@ -652,6 +716,14 @@ func (s *c17State) purge(idx int) {
 
 func (s *c17State) addForeign(r netlink.Route) {
 	r.Table = unix.RT_TABLE_MAIN
+	if s.cfg.V6 {
+		if r.Priority == 0 {
+			r.Priority = 1024 // what the kernel gives an IPv6 route added without a metric
+		}
+		if r.LinkIndex == 0 {
+			r.LinkIndex = 1 // IPv6 special routes sit on lo
+		}
+	}
 	k := mocknetlink.KeyForRoute(&r)
 	name := s.ifaceNameOf(r.LinkIndex)
 	if old, ok := s.dp.RouteKeyToRoute[k]; ok && c17Ours(s.ifaceNameOf(old.LinkIndex), &old) && !c17Ours(name, &r) {
@@ -685,22 +757,22 @@ func c17Apply(s *c17State, e c17Ev) {
 			s.dp.AddIface(11, "cali2", true, true)
 		}
 		if strings.Contains(e.Init, "foreign") {
-			s.addForeign(netlink.Route{Dst: c17Net("192.168.0.0/24"), LinkIndex: 2, Protocol: unix.RTPROT_STATIC, Scope: netlink.SCOPE_LINK, Type: unix.RTN_UNICAST})
-			s.addForeign(netlink.Route{Dst: c17Net("0.0.0.0/0"), LinkIndex: 2, Gw: net.ParseIP("192.168.0.1"), Protocol: unix.RTPROT_DHCP, Type: unix.RTN_UNICAST})
+			s.addForeign(netlink.Route{Dst: s.net("192.168.0.0/24"), LinkIndex: 2, Protocol: unix.RTPROT_STATIC, Scope: netlink.SCOPE_LINK, Type: unix.RTN_UNICAST})
+			s.addForeign(netlink.Route{Dst: s.net("0.0.0.0/0"), LinkIndex: 2, Gw: s.gwip("192.168.0.1"), Protocol: unix.RTPROT_DHCP, Type: unix.RTN_UNICAST})
 		}
 		if strings.Contains(e.Init, "stale") {
 			// leftovers of an earlier Felix
-			s.addForeign(netlink.Route{Dst: c17Net("10.9.9.0/24"), LinkIndex: 2, Gw: net.ParseIP("192.168.0.9"), Protocol: 80, Type: unix.RTN_UNICAST})
-			s.addForeign(netlink.Route{Dst: c17Net("10.8.0.0/16"), Type: unix.RTN_BLACKHOLE, Protocol: 80})
-			s.addForeign(netlink.Route{Dst: c17Net(c17X), LinkIndex: 5, Gw: net.ParseIP("10.0.1.7"), Protocol: 80, Type: unix.RTN_UNICAST, Flags: unix.RTNH_F_ONLINK})
+			s.addForeign(netlink.Route{Dst: s.net("10.9.9.0/24"), LinkIndex: 2, Gw: s.gwip("192.168.0.9"), Protocol: 80, Type: unix.RTN_UNICAST})
+			s.addForeign(netlink.Route{Dst: s.net("10.8.0.0/16"), Type: unix.RTN_BLACKHOLE, Protocol: 80})
+			s.addForeign(netlink.Route{Dst: s.net(c17X), LinkIndex: 5, Gw: s.gwip("10.0.1.7"), Protocol: 80, Type: unix.RTN_UNICAST, Flags: unix.RTNH_F_ONLINK})
 		}
 		if strings.Contains(e.Init, "want") {
-			s.wantSet("L", "cali1")[c17X] = true
+			s.wantSet("L", "cali1")[s.X()] = true
 			s.sendSet("L", "cali1")
-			s.wantSet("V", "vxlan.calico")[c17X] = true
-			s.wantSet("V", "vxlan.calico")[c17Y] = true
+			s.wantSet("V", "vxlan.calico")[s.X()] = true
+			s.wantSet("V", "vxlan.calico")[s.Y()] = true
 			s.sendSet("V", "vxlan.calico")
-			s.wantSet("B", InterfaceNone)[c17Y] = true
+			s.wantSet("B", InterfaceNone)[s.Y()] = true
 			s.sendSet("B", InterfaceNone)
 		}
 		s.routeDrift = false // the first Apply of a new RouteTable is a full resync anyway
@@ -721,7 +793,8 @@ func c17Apply(s *c17State, e c17Ev) {
 		s.rt.RouteUpdate(c17Classes[e.Class], e.Iface, s.target(e.Class, e.CIDRs[0]))
 	case "rem":
 		delete(s.wantSet(e.Class, e.Iface), e.CIDRs[0])
-		s.rt.RouteRemove(c17Classes[e.Class], e.Iface, RouteKey{CIDR: ip.MustParseCIDROrIP(e.CIDRs[0])})
+		rc, rp := c17Split(e.CIDRs[0])
+		s.rt.RouteRemove(c17Classes[e.Class], e.Iface, RouteKey{CIDR: ip.MustParseCIDROrIP(rc), Priority: rp})
 	case "k-if": // the kernel's view of an interface changes (and maybe the monitor tells Felix)
 		l := s.link(e.Iface)
 		switch e.V {
@@ -754,25 +827,26 @@ func c17Apply(s *c17State, e c17Ev) {
 	case "x-route":
 		switch e.V {
 		case "foreign-eth0":
-			s.addForeign(netlink.Route{Dst: c17Net("172.16.0.0/16"), LinkIndex: 2, Protocol: unix.RTPROT_STATIC, Type: unix.RTN_UNICAST, Scope: netlink.SCOPE_LINK})
+			s.addForeign(netlink.Route{Dst: s.net("172.16.0.0/16"), LinkIndex: 2, Protocol: unix.RTPROT_STATIC, Type: unix.RTN_UNICAST, Scope: netlink.SCOPE_LINK})
 		case "foreign-same-dst-other-metric": // same destination as a Felix route, different metric, not Felix's
-			s.addForeign(netlink.Route{Dst: c17Net(c17X), LinkIndex: 2, Priority: 100, Gw: net.ParseIP("192.168.0.1"), Protocol: unix.RTPROT_STATIC, Type: unix.RTN_UNICAST})
+			s.addForeign(netlink.Route{Dst: s.net(c17X), LinkIndex: 2, Priority: 100, Gw: s.gwip("192.168.0.1"), Protocol: unix.RTPROT_STATIC, Type: unix.RTN_UNICAST})
 		case "felix-proto-eth0": // carries Felix's exclusive protocol: Felix's to clean up
-			s.addForeign(netlink.Route{Dst: c17Net("10.9.9.0/24"), LinkIndex: 2, Gw: net.ParseIP("192.168.0.9"), Protocol: 80, Type: unix.RTN_UNICAST})
+			s.addForeign(netlink.Route{Dst: s.net("10.9.9.0/24"), LinkIndex: 2, Gw: s.gwip("192.168.0.9"), Protocol: 80, Type: unix.RTN_UNICAST})
 		case "on-cali1": // any route on a workload interface is Felix's (RemoveExternalRoutes)
 			if l := s.link("cali1"); l != nil {
-				s.addForeign(netlink.Route{Dst: c17Net("10.0.0.9/32"), LinkIndex: l.LinkAttrs.Index, Protocol: unix.RTPROT_KERNEL, Type: unix.RTN_UNICAST, Scope: netlink.SCOPE_LINK})
+				s.addForeign(netlink.Route{Dst: s.net("10.0.0.9/32"), LinkIndex: l.LinkAttrs.Index, Protocol: unix.RTPROT_KERNEL, Type: unix.RTN_UNICAST, Scope: netlink.SCOPE_LINK})
 			}
 		case "del-X": // somebody deletes Felix's route
 			for k, r := range s.dp.RouteKeyToRoute {
-				if r.Dst.String() == c17X && r.Priority == 0 {
+				xc, xp := c17Split(s.normKey(s.X()))
+				if r.Dst.String() == xc && r.Priority == xp {
 					delete(s.dp.RouteKeyToRoute, k)
 					delete(s.foreign, k)
 				}
 			}
 			s.routeDrift = true
 		case "hijack-X": // somebody re-points Felix's route
-			s.addForeign(netlink.Route{Dst: c17Net(c17X), LinkIndex: 2, Gw: net.ParseIP("192.168.0.66"), Protocol: unix.RTPROT_STATIC, Type: unix.RTN_UNICAST})
+			s.addForeign(netlink.Route{Dst: s.net(c17X), LinkIndex: 2, Gw: s.gwip("192.168.0.66"), Protocol: unix.RTPROT_STATIC, Type: unix.RTN_UNICAST})
 		}
 	case "resync":
 		s.rt.QueueResync()
@@ -838,16 +912,16 @@ func c17Enabled(s *c17State, depth int) []c17Ev {
 	}
 	var evs []c17Ev
 	add := func(e c17Ev) { evs = append(evs, e) }
-	add(c17Ev{Op: "set", Class: "L", Iface: "cali1", CIDRs: []string{c17X}})
-	add(c17Ev{Op: "set", Class: "L", Iface: "cali1", CIDRs: []string{c17X, c17Z}})
+	add(c17Ev{Op: "set", Class: "L", Iface: "cali1", CIDRs: []string{s.X()}})
+	add(c17Ev{Op: "set", Class: "L", Iface: "cali1", CIDRs: []string{s.X(), s.Z()}})
 	add(c17Ev{Op: "set", Class: "L", Iface: "cali1"})
-	add(c17Ev{Op: "set", Class: "L", Iface: "cali2", CIDRs: []string{c17X}})
+	add(c17Ev{Op: "set", Class: "L", Iface: "cali2", CIDRs: []string{s.X()}})
 	add(c17Ev{Op: "set", Class: "L", Iface: "cali2"})
-	add(c17Ev{Op: "upd", Class: "V", Iface: "vxlan.calico", CIDRs: []string{c17X}})
-	add(c17Ev{Op: "rem", Class: "V", Iface: "vxlan.calico", CIDRs: []string{c17X}})
-	add(c17Ev{Op: "upd", Class: "V", Iface: "vxlan.calico", CIDRs: []string{c17Y}})
-	add(c17Ev{Op: "rem", Class: "V", Iface: "vxlan.calico", CIDRs: []string{c17Y}})
-	add(c17Ev{Op: "set", Class: "B", Iface: InterfaceNone, CIDRs: []string{c17Y}})
+	add(c17Ev{Op: "upd", Class: "V", Iface: "vxlan.calico", CIDRs: []string{s.X()}})
+	add(c17Ev{Op: "rem", Class: "V", Iface: "vxlan.calico", CIDRs: []string{s.X()}})
+	add(c17Ev{Op: "upd", Class: "V", Iface: "vxlan.calico", CIDRs: []string{s.Y()}})
+	add(c17Ev{Op: "rem", Class: "V", Iface: "vxlan.calico", CIDRs: []string{s.Y()}})
+	add(c17Ev{Op: "set", Class: "B", Iface: InterfaceNone, CIDRs: []string{s.Y()}})
 	add(c17Ev{Op: "set", Class: "B", Iface: InterfaceNone})
 	for _, ifc := range []string{"cali1", "cali2", "vxlan.calico"} {
 		l := s.link(ifc)
@@ -991,7 +1065,7 @@ func c17Spec(cfg c17Cfg, depth int, tree bool) *hbfs.Spec[*c17State, c17Ev] {
 		mode = "tree"
 	}
 	sp := &hbfs.Spec[*c17State, c17Ev]{
-		Name:       fmt.Sprintf("routetable-%s-f%d-grace%ds-d%d", mode, cfg.MaxFaults, int(cfg.Grace/time.Second), depth),
+		Name:       fmt.Sprintf("routetable-%s%s-f%d-grace%ds-d%d", mode, map[bool]string{true: "-v6", false: ""}[cfg.V6], cfg.MaxFaults, int(cfg.Grace/time.Second), depth),
 		New:        func() *c17State { return c17New(cfg) },
 		Apply:      c17Apply,
 		Enabled:    c17Enabled,
@@ -1017,13 +1091,13 @@ func TestVerif_C17(t *testing.T) {
 	logrus.SetLevel(logrus.PanicLevel)
 	logrus.SetOutput(c17Discard{})
 	vk.Run(t, "C17", func(c *vk.Ctx) {
-		c.Rule("states = (mocknetlink kernel: interfaces with index/oper state + main routing table, routes other software owns, desired routes per class/interface, RouteTable's internal view: inputs, conflict-resolution result, delta tracker desired/dataplane, interface maps, rescan set, resync flag, grace info, netlink connection state) over 3 CIDRs (two of them claimed by two route classes each), classes LocalWorkload (cali1, cali2), VXLANTunnel (vxlan.calico), BlackholeVXLAN (no interface), 6 starting kernels (bare / interfaces+foreign routes / +leftover Felix routes / with a desired state, not yet or already applied); " +
+		c.Rule("states = (mocknetlink kernel: interfaces with index/oper state + main routing table, routes other software owns, desired routes per class/interface, RouteTable's internal view: inputs, conflict-resolution result, delta tracker desired/dataplane, interface maps, rescan set, resync flag, grace info, netlink connection state) over 3 CIDRs (two of them claimed by two route classes each; explored for an IPv4 and for an IPv6 RouteTable, the latter with default-metric routes (normalised to 1024) and one explicit metric), classes LocalWorkload (cali1, cali2), VXLANTunnel (vxlan.calico), BlackholeVXLAN (no interface), 6 starting kernels (bare / interfaces+foreign routes / +leftover Felix routes / with a desired state, not yet or already applied); " +
 			"transitions = one API call, an interface going down/up/away/re-created with a new index in the kernel (with or without the monitor telling Felix), the late notification, a route edit by other software (6 kinds), QueueResync, restart, or Apply with at most N injected netlink failures (fault points = every netlink call of that Apply x its failure modes, from a dry run; for every route dump additionally: the dump is flagged interrupted (EINTR) and, before Felix retries it, another actor deletes one of the routes just reported — each in turn — or adds a route); " +
 			"every state is followed by fault-free probe Applies without and with resync; non-trivial = Apply that wrote routes or hit a fault")
 		c.Assume("the kernel behaves like felix/netlinkshim/mocknetlink, extended in the harness with: RouteReplace through a missing/down interface is refused (ENODEV/ENETDOWN); routes of an interface that goes down or is deleted are dropped by the kernel")
 		c.Assume("other software does not take over, behind Felix's back, a route key at which Felix currently believes one of its own routes to sit (Felix deletes and replaces by key); such a newcomer is exempt from the 'foreign routes untouched' oracle until Felix has re-read the table. (Route edits by other software after start-up go beyond the property's quantifier anyway.)")
 		c.Assume("ownership = the real ownershippol.NewMainTable(vxlan.calico, RTPROT_BOOT, [cali], removeExternalRoutes=true) policy; a foreign route with exactly the key (dst, metric) of a desired Felix route is legitimately replaced (documented behaviour)")
-		c.Assume("conntrack clean-up is switched off (WithConntrackCleanup(false)); static ARP entries are not used; IPv4 only")
+		c.Assume("conntrack clean-up is switched off (WithConntrackCleanup(false)); static ARP entries are not used; main routing table only; IPv4 and IPv6 instances are explored separately")
 		c.Assume("the 4th consecutive netlink connection failure makes Felix panic on purpose; the harness treats that as crash + restart, not as a violation")
 		c.Assume("Go map iteration order inside RouteTable (order of RouteReplace/RouteDel calls) is not controlled; the n-th call of a kind may hit a different route in different executions")
 		quick := c17Cfg{MaxFaults: 1}
@@ -1040,6 +1114,7 @@ func TestVerif_C17(t *testing.T) {
 			if strings.Contains(d.Spec, "-grace10s-") {
 				cfg.Grace = 10 * time.Second
 			}
+			cfg.V6 = strings.Contains(d.Spec, "-v6-")
 			// (replay every prefix on a fresh instance, as the explorer does: Check's probes drive the
 			// instance further, so it must not run between the steps of one instance)
 			var fails []hbfs.Fail
@@ -1084,11 +1159,13 @@ func TestVerif_C17(t *testing.T) {
 		}
 		if c.Quick() {
 			hbfs.Explore(c, c17Spec(quick, 4, false))
+			hbfs.Explore(c, c17Spec(c17Cfg{MaxFaults: 1, V6: true}, 4, false))
 		} else {
 			hbfs.Explore(c, c17Spec(quick, 5, false))
 			hbfs.Explore(c, c17Spec(c17Cfg{MaxFaults: 2}, 4, false))
 			hbfs.Explore(c, c17Spec(c17Cfg{MaxFaults: 1, Grace: 10 * time.Second}, 4, false))
 			hbfs.Explore(c, c17Spec(quick, 3, true))
+			hbfs.Explore(c, c17Spec(c17Cfg{MaxFaults: 1, V6: true}, 5, false))
 		}
 		c17AssertMu.Lock()
 		for m, n := range c17Asserts {
